@@ -13,7 +13,7 @@ THEOREMS = ['Otel.Idx.splitString_eq', 'Otel.Idx.hexToBinary_eq'] + ['Otel.C16.'
     'b3_accepts', 'jaeger_accepts', 'b3single_roundtrip', 'b3multi_roundtrip', 'jaeger_roundtrip',
     'b3multi_roundtrip_asis_witness', 'b3multi_roundtrip_asis_partial',
     'b3_64bit_id_left_padded', 'jaeger_64bit_id_left_padded', 'b3_sampling_decision', 'b3_debug_is_sampled',
-    'b3_missing_sampling_unsampled', 'b3_two_field_header_presents', 'b3_multi_without_sampled_presents',
+    'b3_missing_sampling_unsampled', 'jaeger_missing_flags_unsampled', 'jaeger_sampling_decision', 'b3_two_field_header_presents', 'b3_multi_without_sampled_presents',
     'b3_single_precedes_multi', 'b3_extract_valid_or_unchanged', 'jaeger_extract_valid_or_unchanged',
     'b3_extract_iff', 'jaeger_extract_iff', 'never_oob', 'extract_valid_or_unchanged')]
 HARNESSES = [Harness('f_c16', ['harness/f_c16.cc'])]
